@@ -10,6 +10,7 @@ from . import common as C
 
 OCAML = ["http"]
 GO = ["http"]
+PROTO_PROOFS = ["proofs/HttpCfgProofs.v", "proofs/HttpInv.v", "proofs/HttpInvStep.v", "proofs/HttpInvStep2.v", "proofs/HttpProps.v"]
 MODEL_FILES = ["model/HttpCfg.v", "model/HttpServer.v", "model/HttpDrain.v", "lib/LTS.v"]
 HTTP = os.path.join(C.BIN, "http")
 MODEL = os.path.join(C.BIN, "http_model")
